@@ -168,6 +168,21 @@ void do_resize(Toks &tk, std::ostream &os)
     m.resize(R * T, C);
     auto dm = m.dims();
     os << id << " matrix " << std::get<0>(dm) << " " << std::get<1>(dm) << " " << std::get<2>(dm) << "\n";
+    // the derived classes have their own two-argument resize: (groups, layers) for the diagonal and the symmetric tensor
+    {
+        tensor::DiagonalTensor<double> dg(R1, T1);
+        dg.resize(R, T);
+        auto dd = dg.dims();
+        os << id << " @diag_resized " << std::get<0>(dd) << " " << std::get<1>(dd) << " " << std::get<2>(dd) << " " << dg.size() << "\n";
+        tensor::SymmetricTensor<double> sy(R1, T1);
+        sy.resize(R, T);
+        auto ds = sy.dims();
+        os << id << " @sym_resized " << std::get<0>(ds) << " " << std::get<1>(ds) << " " << std::get<2>(ds) << " " << sy.size() << "\n";
+        tensor::DiagonalTensor<double> dz;
+        dz.resize(R, T);
+        auto dzz = dz.dims();
+        os << id << " @diag_resized_from_empty " << std::get<0>(dzz) << " " << std::get<1>(dzz) << " " << std::get<2>(dzz) << " " << dz.size() << "\n";
+    }
 }
 
 } // namespace vh
